@@ -110,8 +110,9 @@ namespace sqf::parser::preprocessor
                             {
                                 _next();
                                 is_in_block_comment = false;
-                                c = next();
-                                break;
+                                // next() has already accounted for the character it returns (string state,
+                                // line continuation); falling through would toggle the string state twice
+                                return next();
                             }
                         }
                     }
